@@ -52,14 +52,15 @@ extern "C" {
   void __ms_in_close(int) {}
   int __ms_in_ws(int h) { int f = h - 1; if (f < 0 || f >= MAXF) return 1; return vfs::at_end(f) ? 1 : 0; }
 #ifdef ADVERSARIAL
-  static int adversary() { return nondet_int() & 3; } // 0: ok, 1: parse failure, 2: end of input
+  static int adv_parse_failures;   // typed extractions that failed to parse since the harness last cleared the counter
+  static int adversary() { return nondet_int() & 3; } // 0: ok, 1: parse failure, 2: end of input, 3: arbitrary value
 #endif
   int __ms_in_long(int h, long * v)
   {
     int f = h - 1;
     if (f < 0 || f >= MAXF || vfs::at_end(f)) return -1;
 #ifdef ADVERSARIAL
-    { int a = adversary(); if (a == 1) return 0; if (a == 2) { vfs::cur_rec[f] = vfs::nrec[f]; return -1; } if (a == 3) { *v = nondet_long(); vfs::advance(f); return 1; } }
+    { int a = adversary(); if (a == 1) { adv_parse_failures++; return 0; } if (a == 2) { vfs::cur_rec[f] = vfs::nrec[f]; return -1; } if (a == 3) { *v = nondet_long(); vfs::advance(f); return 1; } }
 #endif
     int g = vfs::base[f] + vfs::cur_rec[f], t = vfs::cur_tok[f];
     if (t == 0) *v = g;                       // event id
@@ -74,7 +75,7 @@ extern "C" {
     int f = h - 1;
     if (f < 0 || f >= MAXF || vfs::at_end(f)) return -1;
 #ifdef ADVERSARIAL
-    { int a = adversary(); if (a == 1) return 0; if (a == 2) { vfs::cur_rec[f] = vfs::nrec[f]; return -1; } if (a == 3) { *v = nondet_double(); vfs::advance(f); return 1; } }
+    { int a = adversary(); if (a == 1) { adv_parse_failures++; return 0; } if (a == 2) { vfs::cur_rec[f] = vfs::nrec[f]; return -1; } if (a == 3) { *v = nondet_double(); vfs::advance(f); return 1; } }
 #endif
     int g = vfs::base[f] + vfs::cur_rec[f], t = vfs::cur_tok[f];
     if (t == 2) return 0; // the generator label is not a number
@@ -159,6 +160,9 @@ extern "C" void harness()
       bool hn = rd->has_next_event();
       event ev;
       bool threw = false;
+#ifdef ADVERSARIAL
+      adv_parse_failures = 0;
+#endif
       try { rd->load_next_event(ev); } catch (std::exception &) { threw = true; }
 #ifndef ADVERSARIAL
       if (hn) { if (start >= total && total > 0) VASSERT(!threw, "C11 [start_event at or beyond the end of the stream]: a next event is announced but loading it fails"); else VASSERT(!threw, "C11: whenever a next event is announced, loading it succeeds"); }
@@ -177,6 +181,7 @@ extern "C" void harness()
       }
 #else
       if (!threw) VASSERT(ev.is_valid(), "C15: an event loaded without error satisfies the event validity predicate");
+      if (!threw) VASSERT(adv_parse_failures == 0, "C15: an event is not returned as loaded when one of its fields failed to parse (garbage load)");
       else break;
       (void)hn;
 #endif
